@@ -1001,12 +1001,12 @@ def _obj_case(item):
 # ---------------------------------------------------------------------------
 # interface
 # ---------------------------------------------------------------------------
-QUICK = [("custom", "plain", 8), ("custom", "with-base", 4), ("system-z", "strict", 20), ("system-z", "strict-ext", 6), ("system-z", "weak-ext", 8), ("system-z", "facts", 10), ("random_min_c_rep", "plain", 20)]
+QUICK = [("custom", "plain", 6), ("custom", "with-base", 3), ("system-z", "strict", 14), ("system-z", "strict-ext", 4), ("system-z", "weak-ext", 6), ("system-z", "facts", 8), ("random_min_c_rep", "plain", 14)]
 
 
 def run(tier, seed):
     rng = random.Random(seed)
-    mult = 6 if tier == "thorough" else 1
+    mult = 8 if tier == "thorough" else 1
     items = []
     for kind, variant, n in QUICK:
         for _ in range(n * mult):
